@@ -80,6 +80,7 @@ pub const INDEX_OPS: &[&str] = &[
     "special_sets",
     "special_casts",
     "special_wide",
+    "special_path_text",
 ];
 
 /// rendering with indentation is quadratic in depth; keep the output below ~1 GB
@@ -594,6 +595,30 @@ fn run_special(op: &str) -> String {
                 let _ = jsonb::from_slice(w).map(|v| v.to_vec());
                 out.clear();
                 offs.clear();
+            }
+        }
+        // extreme numbers written in JSONPath / key-path TEXT: parsed, then evaluated
+        "special_path_text" => {
+            let texts: &[&str] = &[
+                "$[*]?(@ == 18446744073709551615)", "$[*]?(@ == 18446744073709551616)", "$[*]?(@ > -9223372036854775808)", "$[*]?(@ < -9223372036854775809)",
+                "$[*]?(@ <= 1e999)", "$[*]?(@ >= -1e999)", "$[*]?(@ != 5e-324)", "$[*]?(@ == 99999999999999999999999999999999999999)", "$[4294967295]", "$[4294967296]",
+                "$[2147483648]", "$[-2147483649]", "$[last - 4294967296]", "$[0 to 2147483648]", "$[*]?(@ == -0)", "$[*]?(@ == 0.0000000000000000000000000000000001)",
+                "$ == 1e999", "$[*] > 18446744073709551616",
+            ];
+            for t in texts {
+                if let Ok(p) = jp::parse_json_path(t.as_bytes()) {
+                    let _ = jsonb::get_by_path(&doc, p.clone(), &mut out, &mut offs);
+                    let _ = jsonb::path_exists(&doc, p.clone());
+                    let _ = jsonb::path_match(&doc, p);
+                    let _ = format!("{}", jp::parse_json_path(t.as_bytes()).unwrap());
+                }
+            }
+            for t in ["{4294967295}", "{-4294967296}", "{2147483648}", "{-2147483649}", "{99999999999999999999}", "{0,-0}"] {
+                if let Ok(k) = jsonb::keypath::parse_key_paths(t.as_bytes()) {
+                    let _ = jsonb::get_by_keypath(&doc, k.paths.iter());
+                    let _ = jsonb::delete_by_keypath(&doc, k.paths.iter(), &mut out);
+                    let _ = format!("{k}");
+                }
             }
         }
         other => return format!("harness:unknown_special:{other}"),
